@@ -20,7 +20,8 @@ PROP = {'lean_props': ['Comrak.Props.C19'],
              "the input (escapeHref_decode_equiv); length bounds are C06.escape_len / escapeHref_len",
  'assumptions': ['io::Write error paths are not modelled (writers are Vec<u8>)']}
 
-TEXT = {'text': 'Proof. escape/escape_href/write_opening_tag are modelled completely (per-byte specification and loop-shaped forms); homomorphism, '
+TEXT = {'text_added': 'Exhaustive over runs: every length 0..160 (0..700 for two fills) of seven kinds of escaped bytes x nine followers x two prefixes, through both escapers (bytes, alphabet, decode, concatenation).',
+ 'text': 'Proof. escape/escape_href/write_opening_tag are modelled completely (per-byte specification and loop-shaped forms); homomorphism, '
          'no-active-character, output alphabet and the decoder round trip are Lean theorems for every byte string. The literal round trip of the '
          "href escaper is refuted by a Lean witness (by design: '%' is in the safe set) and recorded as a known finding; injectivity is proved on "
          "inputs without '%', and for every byte string entity-decoding then percent-decoding the output equals percent-decoding the input "
